@@ -36,6 +36,8 @@ def run(ctx):
     ctx.rules[-1].id = 'C16.W1'
     for i in ctx.rules[-1].instances:
         i.rule = 'C16.W1'
+    from . import c17
+    common.retag(ctx, 'C16.P2', c17.rule_pow, repo, eng, title='CheckBlockHeader relies on CheckProofOfWork')
     ctx.not_decided += ['the values of sizes and hashes (serialisation: C01; merkle arithmetic: C15)']
     ctx.assume('serialisation layouts as decided by C01; proof-of-work rules as decided by C17')
 
